@@ -140,7 +140,8 @@ def concretise(c, r):
             groups.append(["--frobnicate"])
             continue
         if f in ("max-stack", "max-trace"):
-            good = "300" if f == "max-stack" else "2"
+            # the contract (exit status, streams) does not depend on how many trace items are shown
+            good = "300" if f == "max-stack" else r.choice(["0", "0", "1", "2", "7"])
             bad = "abc" if f == "max-stack" else "x"
             groups.append(opt(f, good if srck == "ok" else bad, r))
             continue
